@@ -146,3 +146,36 @@ Proof. split; vm_compute; reflexivity. Qed.
 
 Lemma ex_bounded_hyps : rwf rinit /\ rbounded (mkLimits 16 8 4 0) 0 rinit.
 Proof. split; [exact rwf_init|apply rbounded_init]. Qed.
+
+(* read boundaries in both special states, harmless: "... abc CR" | "LF 0 CRLF" | "CRLF" *)
+Definition y_a : bytes := [72; 84; 84; 80; 47; 49; 46; 49; 32; 50; 48; 48; 32; 79; 75; 13; 10; 84; 114; 97; 110; 115; 102; 101; 114; 45; 69; 110; 99; 111; 100; 105; 110; 103; 58; 32; 99; 104; 117; 110; 107; 101; 100; 13; 10; 13; 10; 51; 13; 10; 97; 98; 99; 13].
+Definition y_b : bytes := [10; 48; 13; 10].
+Definition y_c : bytes := [13; 10].
+
+Lemma ex_safe_unclean_reads :
+  rboundaries_clean rcfg0 rinit [y_a; y_b; y_c] [] = false /\
+  rboundaries_safe rcfg0 rinit [y_a; y_b; y_c] [] = true /\
+  pkind_of (fst (fst (rfeed rcfg0 rinit y_a []))) = Some (RChunked (RDataEnd true), [], []) /\
+  rdigest (rrun_segs rcfg0 rinit [y_a; y_b; y_c] [] []) = (OOk [], [(200, [97; 98; 99], [3], true, None)]) /\
+  rrun_segs rcfg0 rinit [concat [y_a; y_b; y_c]] [] [] = rrun_segs rcfg0 rinit [y_a; y_b; y_c] [] [].
+Proof. vm_compute. repeat split. Qed.
+
+(* the refutation witnesses are exactly the excluded continuations *)
+Lemma witnesses_unsafe :
+  rresume_st (fst (fst r1_ab)) w_b = false /\ rresume_st (fst (fst r1_cd)) w_d = false /\
+  rresume_st (fst (fst r1_cd)) w_d2 = false /\
+  rboundaries_safe rcfg0 rinit [w_a; w_b] [] = false /\ rboundaries_safe rcfg0 rinit [w_c; w_d2] [] = false.
+Proof. vm_compute. repeat split. Qed.
+
+(* a rejected segmentation: "... abc CR" | "LF zz CRLF" | "never read": same exception and messages as one read
+   of the two reads it consumed *)
+Definition y_bad : bytes := [10; 122; 122; 13; 10].
+
+Lemma ex_rejected_consumed :
+  rboundaries_ok rcfg0 rinit [y_a; y_bad; y_c] [] = true /\
+  rconsumed rcfg0 rinit [y_a; y_bad; y_c] [] = [y_a; y_bad] /\
+  rdigest (rrun_segs rcfg0 rinit [y_a; y_bad; y_c] [] []) =
+    (OErr ETransferEncoding, [(200, [97; 98; 99], [3], false, Some ETransferEncoding)]) /\
+  rdigest (rrun_segs rcfg0 rinit [y_a ++ y_bad] [] []) =
+    (OErr ETransferEncoding, [(200, [97; 98; 99], [3], false, Some ETransferEncoding)]).
+Proof. vm_compute. repeat split. Qed.
